@@ -41,7 +41,7 @@ class C06:
             "non-trivial = hash-based header, pre-3.3 header, or flag word >= 4; distinct = header bytes")
     assumptions = ["PEP 552 / importlib._bootstrap_external define the header; flag words with bits outside 0b11 are "
                    "invalid for CPython: xdis may raise ImportError, but if it returns the fields must follow bit 0"]
-    budgets = {"quick": {"shards": 8, "examples": 400, "seconds": 60},
+    budgets = {"quick": {"shards": 8, "examples": 2500, "seconds": 60},
                "thorough": {"shards": 16, "examples": 15000, "seconds": 600}}
 
     def setup(self, ctx):
